@@ -208,6 +208,9 @@ func (t *Template) recover(errp *error) {
 			t.lex.drain()
 			t.stopParse()
 		}
+		if _, isError := e.(error); !isError {
+			e = fmt.Errorf("%v", e) // a panic with a non-error value must not turn into a failed type assertion
+		}
 		*errp = e.(error)
 	}
 	return
